@@ -929,14 +929,14 @@ def install_scaling_stubs(env, tape):
 
 
 def scaling_configs(tier):
+    # (V,P) and (V,T) were tried: 388 paths and ~40 min for one two-chemical configuration (every callback evaluation forks on the
+    # zero tests of the flow write-back), so the relational proof covers the (T,P) specification; V/H specifications: C04/B_scaling.
     fam = [('TP', 'WE', {'W': '0+', 'E': '+0'}, 0, 'floor'), ('TP', 'WEN', {'W': '0+', 'E': '0+', 'N': '+0'}, 0, 'floor'),
-           ('TP', 'WX', {'W': '0+', 'X': '0+'}, 0, 'floor'), ('PV', 'WE', {'W': '0+', 'E': '+0'}, 0, 'floor')]
+           ('TP', 'WX', {'W': '0+', 'X': '0+'}, 0, 'floor')]
     if tier == 'thorough':
         fam += [('TP', 'WE', {'W': '0+', 'E': '+0'}, 0, 'any'), ('TP', 'WEX', {'W': '0+', 'E': '+0', 'X': '0+'}, 0, 'floor'),
-                ('TP', 'WENX', {'W': '0+', 'E': '+0', 'N': '+0', 'X': '0+'}, 0, 'floor'), ('TP', 'WEM', {'W': '0+', 'E': '+0', 'M': '++'}, 0, 'floor'),
-                ('PV', 'WE', {'W': '0+', 'E': '+0'}, 1, 'floor'), ('TV', 'WE', {'W': '0+', 'E': '+0'}, 1, 'floor'),
-                ('PV', 'WEN', {'W': '0+', 'E': '0+', 'N': '+0'}, 1, 'floor'), ('TV', 'WEX', {'W': '0+', 'E': '+0', 'X': '0+'}, 1, 'floor'),
-                ('TP', 'WE', {'W': '++', 'E': '++'}, 0, 'floor')]
+                ('TP', 'WENX', {'W': '0+', 'E': '+0', 'N': '+0', 'X': '0+'}, 0, 'floor'), ('TP', 'WE', {'W': '++', 'E': '++'}, 0, 'floor'),
+                ('TP', 'W', {'W': '++'}, 0, 'floor'), ('TP', 'WN', {'W': '0+', 'N': '+0'}, 0, 'floor')]
     return [{'name': f'{spec}/{keys}/{_dist_name(d, keys)}/k={k}/Kguess={g}', 'spec': spec, 'pkg': keys, 'dist': d, 'k': k, 'kguess': g}
             for spec, keys, d, k, g in fam]
 
